@@ -71,3 +71,10 @@ add('C19', 'model-based stateful testing (Hypothesis RuleBasedStateMachine) with
     'over an 8-operation alphabet are enumerated as well.',
     'Trusted: the model (a list of loaded (certificate, half) pairs). Which of several carriers of a shared identifier is returned is not asserted.',
     'DESIGN.md 4/C19')
+add('C02', 'differential property-based testing in both directions (Hypothesis + covering matrix) against an independent RFC 4880 5.2.3/5.2.4 signer and verifier, plus per-option encoding oracles',
+    'Signatures PGPy makes (24 kinds incl. signed text-format messages, cleartext, all certification levels, attestation, direct-key, revoker, bindings with embedded 0x19, '
+    'revocations) x pooled keys of every algorithm x 6 hashes x generated option sets (19 option keywords, ASCII and non-ASCII text, creation times 0..2^32-1) are re-imported '
+    '(binary, armored CRLF, inside messages) and verified by PGPy, verified by refpgp.sig including the left 16 bits, and every requested option is compared with the RFC 5.2.3.x '
+    'encoding; 13 kinds of reference-made signatures must verify under PGPy detached and inside reference-built keys/messages.',
+    'Trusted: refpgp.sig/keys (self-tested on GnuPG-made fixtures), cryptography primitives, hashlib. RIPEMD-160 only where this cryptography build offers it.',
+    'DESIGN.md 4/C02')
